@@ -90,6 +90,11 @@ CLAIMED = {
          "Three applications with growing session records x all histories up to depth 2 (quick) / 3 (thorough); for the last request of each history every crash point of every file operation between Exec and Finish - including every partial write length - is taken once: afterwards the neighbour session's record is byte-identical, the session's record decodes to the old state or to one written by a completed save, and a fresh engine answers the next input exactly as the crash-free run does from that state.",
          "Trusted: the os shim (_shimsrc/vos) models process death only (completed writes survive); power loss / dropped unsynced blocks are outside the statement. A tree whose db/fs needs os functions the shim lacks fails to build (exit 2, never a VIOLATION).",
          "DESIGN.md §4 C12"),
+ "C19": ("model_checking",
+         "controlled cooperative scheduler over session goroutines with scheduling points at every VM instruction, resource callback and store operation; exhaustive enumeration of all schedules up to a pre-emption bound (iterative context bounding, stateless DFS with replay); separate free-running -race pass as sampling complement",
+         "Seven scenarios (2-3 sessions x 2-3 requests; hub node entered through CATCH, MOVE and INCMP; shared code slices with spare capacity and exact-capacity control; same sink browsed by both; one ending while the other browses; long-lived, persisted-mem and persisted-fs on one directory) are explored under every schedule with at most 2 (quick) / 3 (thorough) pre-emptions: each session's transcript must equal its solo transcript, the shared application data must be unchanged up to the capacity of every slice, and package-level state must be unchanged.",
+         "Trusted: the cooperative scheduler sees interleavings at its yield points only; races confined to one instruction and memory-model effects are left to the separate free-running pass under the race detector (30 / 300 repetitions), which samples and is reported as such.",
+         "DESIGN.md §4 C19"),
 }
 
 NOT_YET = {}
